@@ -3,10 +3,12 @@
 //   {-1,-0.5,...,4.5,5}, for int / double / float elements, double / float / int queries, std::span, and the
 //   custom-comparator overload (element type not convertible to double -> pure bisection; and double elements).
 // E (long): every length 1..64 (thorough 1..200) x stride {1,1e-9,1e9} x offset {0,1} x repeat factor {1,3}
-//   x spacing {uniform, quadratic, geometric} x queries below / at / between / above all elements.
+//   x spacing {uniform, quadratic, geometric} x queries below the front, just below / at / just above every element
+//   (next representable value of the query type), midway between neighbours, above the back.
 // O: linear scan for the four documented cases.
 #include "c20.hpp"
 #include <compare>
+#include <limits>
 using namespace c20;
 using smooth::utils::binary_interval_search;
 
@@ -137,39 +139,64 @@ std::vector<Elem> make_long(int len, double stride, double offset, int rep, int 
   return r;
 }
 
+/// neighbours of x in the query type (next representable value / next integer)
+template<typename Q>
+Q just_below(Q x)
+{
+  if constexpr (std::is_floating_point_v<Q>) return std::nextafter(x, -std::numeric_limits<Q>::infinity());
+  else return x - 1;
+}
+template<typename Q>
+Q just_above(Q x)
+{
+  if constexpr (std::is_floating_point_v<Q>) return std::nextafter(x, std::numeric_limits<Q>::infinity());
+  else return x + 1;
+}
+
 template<typename Elem, typename Q>
 void run_long(const char * name, const std::vector<int> & strides, const std::vector<int> & shapes)
 {
   const int LMAX    = mc::thorough() ? 200 : 64;
-  const uint64_t nQ = 2 * (uint64_t)LMAX + 1, nS = strides.size(), nH = shapes.size();
+  // query slots: 0 = below the front; for element i: 4i+1 just below it, 4i+2 at it, 4i+3 just above it,
+  // 4i+4 midway to the next element (or above the back for the last one)
+  const uint64_t nQ = 4 * (uint64_t)LMAX + 1, nS = strides.size(), nH = shapes.size();
+  static const char * QK[5] = {"query: below front", "query: just below an element", "query: at an element", "query: just above an element",
+    "query: between neighbours / above back"};
   mc::explore(std::string("C20/search/long/") + name, (uint64_t)LMAX * nS * 2 * 2 * nH * nQ, [&](mc::Case & c) {
     mc::Radix rx(c.idx);
     const int q = (int)rx.next(nQ), shape = shapes[rx.next(nH)], rep = rx.next(2) ? 3 : 1;
     const double offset = rx.next(2) ? 1.0 : 0.0, stride = STRIDES[strides[rx.next(nS)]];
     const int len = (int)rx.next((uint64_t)LMAX) + 1;
-    if (q > 2 * len) {  // query slots beyond this length
+    if (q > 4 * len) {  // query slots beyond this length
       c.trivial();
       c.outcome("unused query slot");
       return;
     }
     const auto r = make_long<Elem>(len, stride, offset, rep, shape);
-    double td;
-    if (q == 0)
-      td = (double)r[0] - stride;  // below the front
-    else if (q % 2 == 1)
-      td = (double)r[size_t(q / 2)];  // at element q/2
-    else if (q / 2 < len)
-      td = 0.5 * ((double)r[size_t(q / 2 - 1)] + (double)r[size_t(q / 2)]);  // between two neighbours
-    else
-      td = (double)r[size_t(len - 1)] + stride;  // above the back
-    const Q t = (Q)td;
+    Q t;
+    int kind;
+    if (q == 0) {
+      t = (Q)((double)r[0] - stride), kind = 0;
+    } else {
+      const int i = (q - 1) / 4, k = (q - 1) % 4;
+      kind        = k + 1;
+      switch (k) {
+      case 0: t = just_below<Q>((Q)r[size_t(i)]); break;
+      case 1: t = (Q)r[size_t(i)]; break;
+      case 2: t = just_above<Q>((Q)r[size_t(i)]); break;
+      default:
+        t = i + 1 < len ? (Q)(0.5 * ((double)r[size_t(i)] + (double)r[size_t(i + 1)])) : (Q)((double)r[size_t(len - 1)] + stride);
+      }
+    }
     c.desc = [&, t, shape, stride, offset, rep] {
-      return mc::fmt("len=%zu %s stride=%g offset=%g rep=%d ", r.size(), SHAPE[shape], stride, offset, rep) + rstr(r, ident) + " t=" + mc::hexf((double)t);
+      return mc::fmt("len=%zu %s stride=%g offset=%g rep=%d ", r.size(), SHAPE[shape], stride, offset, rep) + rstr(r, ident) + " t=" + mc::hexf((double)t) +
+             mc::fmt(" (%.20Lg)", (L)t);
     };
     c.param("len", len);
     c.param("stride", stride);
     c.param("t", (double)t);
     c.outcome(SHAPE[shape]);
+    c.outcome(QK[kind]);
     judge_search(c, r, t, ident);
   });
 }
